@@ -53,6 +53,9 @@ pub enum Attack {
     MaxDataInInitialSpace,
     CryptoBeyondBuffer,
     ResetBeyondStreamLimit,
+    /// two packets: data on a fresh stream, and - a few packets later, when the victim's
+    /// application has long read it - a FIN whose final size lies below that data
+    FinBelowConsumed,
 }
 
 pub const ALL_ATTACKS: &[Attack] = &[
@@ -77,6 +80,7 @@ pub const ALL_ATTACKS: &[Attack] = &[
     Attack::MaxDataInInitialSpace,
     Attack::CryptoBeyondBuffer,
     Attack::ResetBeyondStreamLimit,
+    Attack::FinBelowConsumed,
 ];
 
 impl Attack {
@@ -99,7 +103,7 @@ impl Attack {
         match self {
             Attack::StreamBeyondStreamLimit | Attack::StreamBeyondConnLimit | Attack::ResetBeyondStreamLimit => &[E_FLOW_CONTROL],
             Attack::StreamIdBeyondMaxStreams => &[E_STREAM_LIMIT],
-            Attack::DataBeyondFinalSize | Attack::SecondFinDifferent | Attack::ResetBelowReceived => &[E_FINAL_SIZE],
+            Attack::DataBeyondFinalSize | Attack::SecondFinDifferent | Attack::ResetBelowReceived | Attack::FinBelowConsumed => &[E_FINAL_SIZE],
             Attack::StreamOnPeerUniStream
             | Attack::StreamOnUnopenedPeerBidi
             | Attack::MaxStreamDataOnOwnUni
@@ -149,8 +153,25 @@ pub struct VictimView {
 pub fn rewriter(attack: Attack, v: VictimView, after_packets: u32, seed: u64) -> Rewriter {
     let mut count = 0u32;
     let mut done = false;
+    // second step of a two-packet attack: (ack-eliciting packets still to let pass, frames)
+    let mut step2: Option<(u32, Vec<u8>)> = None;
     let mut r = Rng::new(seed ^ 0xa77ac);
     Box::new(move |p: &Pkt, cap: usize| -> Option<Vec<u8>> {
+        if let Some((wait, frames)) = step2.as_mut() {
+            if p.space != Space::App || !p.ack_eliciting() || p.frames.iter().any(|f| matches!(f, Frame::ConnectionClose { .. })) {
+                return None;
+            }
+            if *wait > 0 {
+                *wait -= 1;
+                return None;
+            }
+            let mut out = std::mem::take(frames);
+            step2 = None;
+            out.push(0x01);
+            let want = out.len() + 8;
+            pad_to(&mut out, want, cap);
+            return if out.len() <= cap { Some(out) } else { None };
+        }
         if done || p.space != attack.space() {
             return None;
         }
@@ -234,6 +255,19 @@ pub fn rewriter(attack: Attack, v: VictimView, after_packets: u32, seed: u64) ->
                 put_varint(&mut out, fresh_bidi);
                 put_varint(&mut out, 7);
                 put_varint(&mut out, 5);
+            }
+            Attack::FinBelowConsumed => {
+                // a fresh unidirectional stream of the attacker (the victim only receives on it)
+                let idx = v.honest_uni_streams;
+                let fresh_uni = 4 * idx + 2 + my_bit;
+                if idx >= v.max_remote_uni || v.uni_window < 64 {
+                    return None;
+                }
+                stream(&mut out, fresh_uni, 0, &garbage[..20], false);
+                let mut second = Vec::new();
+                let off = r.range(0, 4);
+                stream(&mut second, fresh_uni, off, &garbage[off as usize..off as usize + r.range(0, 3) as usize], true);
+                step2 = Some((r.range(2, 8) as u32, second));
             }
             Attack::ResetBeyondStreamLimit => {
                 if fresh_idx >= v.max_remote_bidi {
@@ -341,6 +375,7 @@ pub struct C04 {
     /// stream -> consumed bytes reported by the application tap, per (ep, client)
     conn_client: HashMap<(EpId, u64), EpId>,
     attack_rx_t: Option<u64>,
+    step1_rx: bool,
     victim_closed: HashMap<u64, (u64, CloseKind)>,
     victim_close_frame: HashMap<u64, (bool, u64)>,
     victim_sent_any: std::collections::HashSet<u64>,
@@ -368,6 +403,7 @@ impl C04 {
             credit: HashMap::new(),
             conn_client: HashMap::new(),
             attack_rx_t: None,
+            step1_rx: false,
             victim_closed: HashMap::new(),
             victim_close_frame: HashMap::new(),
             victim_sent_any: Default::default(),
@@ -417,6 +453,7 @@ impl Monitor for C04 {
         // consumption as seen at the application boundary
         let (flow, n, stop) = match op {
             AppOp::RecvChunk { flow, data, .. } => (*flow, data.len() as u64, false),
+            AppOp::Drained { flow, n } => (*flow, *n, false),
             AppOp::StopSending { flow, .. } => (*flow, 0, true),
             _ => return,
         };
@@ -450,7 +487,18 @@ impl Monitor for C04 {
                 .iter()
                 .find(|(a, s, pn, _)| *a == self.attacker && *s == p.space && *pn == p.pn)
             {
-                if self.attack_rx_t.is_none() {
+                let has_fin = p.frames.iter().any(|f| matches!(f, Frame::Stream { fin: true, .. }));
+                if self.attack == Some(Attack::FinBelowConsumed) && !has_fin {
+                    // first step (plain data on a fresh stream): nothing to reject yet
+                    self.step1_rx = true;
+                    cx.summary.count("c04.two_step_first_packets_delivered", 1);
+                } else if self.attack_rx_t.is_none() {
+                    if self.attack == Some(Attack::FinBelowConsumed) && !self.step1_rx {
+                        // the data packet was lost (and is never retransmitted: the library
+                        // does not know the frames the tap put there): a FIN at offset <= 5 on
+                        // an otherwise empty stream breaks no rule
+                        self.attack_became_benign = true;
+                    }
                     self.attack_rx_t = Some(p.t);
                     self.attack_conn = Some(p.conn);
                     cx.summary.count("c04.attacks_delivered", 1);
